@@ -184,10 +184,9 @@ class BcastClientSide(Redis):
         expire: float | None = None,
         exist: bool | None = None,
     ) -> bool:
-        await self._local_cache.set(key, value, expire, exist)
         await self._mark_as_recently_updated(key)
         _set = await super().set(self._add_prefix(key), value, expire, exist)
-        if _set:
+        if _set:  # the local copy follows the server: a rejected (or failed) write must not become readable
             await self._local_cache.set(key, value, expire)
         else:
             await self._recently_update.delete(key)
